@@ -11,7 +11,7 @@
    body, else the binding the ENCLOSING lambda resolves lexically (by induction over
    the nesting: the innermost enclosing binder), else the global.                 *)
 From MW Require Import Model.Base Model.Datum Model.VmTypes Model.Heap Model.Gc Model.VmBase Model.Compile Model.Vm
-  Proofs.SymtabProofs Proofs.ScopeProofs Proofs.EnvProofs.
+  Proofs.SymtabProofs Proofs.ScopeProofs Proofs.EnvProofs Proofs.FlatProofs.
 Open Scope N_scope.
 
 Theorem C02_own_parameter_wins : forall args internal free iof vararg sym i,
@@ -275,15 +275,15 @@ Proof.
   split; [exact (lex_inv_enter _ _ _ H E1)|]. auto.
 Qed.
 
-(* OPEN (kept visible, NOT weakened).  As written the statement quantifies over every
-   machine state, reachable or not, and in that form it is false
+(* The statement as first written (kept visible, NOT weakened).  It quantifies over every
+   machine state, reachable or not, and in that form it is FALSE
    (C02_locations_flat_unrestricted_refuted: a hand-made environment whose slot points to
-   itself).  What is proved is the invariant form above.  What stays open is the
-   preservation of [lex_inv] by the other instructions (MOV family, PUSH operand, CONS,
-   VPUSH, CALL/TCALL with builtins and continuations, VARARG): they move values
-   between %acc/stack and heap cells, global slots, vectors, bytecode operands and saved
-   continuation stacks, so the "no LexPtr value" part of the invariant has to be extended
-   to those stores, and [run_one] is parameterised by the builtin table [other_builtin]. *)
+   itself).  What is proved instead is its restriction to the states that matter:
+   [C02_locations_flat] below — the body of this statement holds in every state reached by
+   running code from a state satisfying the invariant [finv] (Proofs/FlatProofs.v), which
+   holds of the machine of Vm::new.  Remaining hypotheses, both explicit: [builtins_ok]
+   (reduced by C02_builtins_ok_of to the table other_builtin and to `eval`, i.e. to the
+   compiler emitting bytecode that satisfies [bc_ok]; decidable check [bc_okb]). *)
 Definition C02_locations_flat_stmt : Prop :=
   forall (s : vm) p k q k2 eid l,
     env_at s p = Some (eid, l) -> list_get l k = Some (VLexPtr q k2) ->
@@ -293,3 +293,95 @@ Definition C02_locations_flat_stmt : Prop :=
 Theorem C02_locations_flat_unrestricted_refuted : ~ C02_locations_flat_stmt.
 Proof. exact flat_not_universal. Qed.
 Print Assumptions C02_locations_flat_unrestricted_refuted.
+
+(* ---- flatness over the WHOLE instruction set (Proofs/FlatProofs.v).
+   [finv s] = [lex_inv s] and no VLexPtr VALUE in any heap cell, global slot, vector payload,
+   saved continuation stack or bytecode operand, and every code object satisfies [bc_ok]:
+   the destination operand of MOV / MOV-immediate is never a raw heap pointer (so no
+   instruction overwrites the heap cell of an environment object).
+   [builtins_ok ob] = every builtin (as dispatched by run_builtin) keeps [finv] — also when it
+   fails — and returns a value that is not a VLexPtr. *)
+Theorem C02_finv_initial : forall c, 0 < c -> finv (vm_empty c).
+Proof. exact finv_empty. Qed.
+Print Assumptions C02_finv_initial.
+
+Theorem C02_finv_lex_inv : forall s, finv s -> lex_inv s.
+Proof. exact fi_lex. Qed.
+Print Assumptions C02_finv_lex_inv.
+
+(* one instruction, ANY opcode (extends C02_flat_preserved_step): success path ... *)
+Theorem C02_flat_preserved_step_all : forall ob s r s',
+  builtins_ok ob -> finv s -> run_one ob s = ROk r s' -> finv s'.
+Proof. exact finv_step. Qed.
+Print Assumptions C02_flat_preserved_step_all.
+
+(* ... and error path (the machine keeps running after a failed evaluation) *)
+Theorem C02_flat_preserved_step_err : forall ob s e msg s',
+  builtins_ok ob -> finv s -> run_one ob s = RErr e msg s' -> finv s'.
+Proof. exact finv_step_err. Qed.
+Print Assumptions C02_flat_preserved_step_err.
+
+(* every opcode except CALL / TCALL: no hypothesis on the builtins at all
+   (MOV, MOV-immediate, PUSH operand, PUSH-immediate, PUSH %acc, CONS, VPUSH, CLOSURE, ENTER,
+   RET, VARARG, JMP, JNT, HALT) *)
+Theorem C02_flat_preserved_step_nocall : forall ob s op s0 r s',
+  finv s -> read_opcode s = ROk op s0 -> calls op = false -> run_one ob s = ROk r s' -> finv s'.
+Proof. exact finv_step_nocall. Qed.
+Print Assumptions C02_flat_preserved_step_nocall.
+
+(* the run loop, by induction on the fuel: whatever the outcome (value, yield at the budget,
+   error with the registers reset) the final state satisfies the invariant *)
+Theorem C02_flat_preserved_run : forall ob fuel count s res s',
+  builtins_ok ob -> finv s -> run_count ob fuel count s = ROk res s' -> finv s'.
+Proof. exact run_count_finv. Qed.
+Print Assumptions C02_flat_preserved_run.
+
+(* locations_flat for every state reachable by running code from an invariant state *)
+Theorem C02_locations_flat : forall ob fuel count s res s',
+  builtins_ok ob -> finv s -> run_count ob fuel count s = ROk res s' ->
+  forall p k q k2 eid l,
+    env_at s' p = Some (eid, l) -> list_get l k = Some (VLexPtr q k2) ->
+    exists e2 l2 v, env_at s' q = Some (e2, l2) /\ list_get l2 k2 = Some v /\
+                    match v with VLexPtr _ _ => False | _ => True end.
+Proof. exact locations_flat_reachable. Qed.
+Print Assumptions C02_locations_flat.
+
+(* whole evaluations (Vm::eval = compile, install, run) under the same hypothesis on the
+   compiler: prepare_eval keeps the invariant *)
+Theorem C02_flat_preserved_eval : forall ob fuel e s res s',
+  builtins_ok ob -> pres (prepare_eval e) T -> finv s -> eval ob fuel e s = ROk res s' -> finv s'.
+Proof. exact eval_finv. Qed.
+Print Assumptions C02_flat_preserved_eval.
+
+(* the hypothesis on the builtins reduced to the table [other_builtin] and to `eval`:
+   apply, call/cc (which saves the stack in a continuation), error, display and write are
+   proved here *)
+Theorem C02_builtins_ok_of : forall ob,
+  (forall b, pres (ob b) no_lexptr) -> pres b_eval no_lexptr -> builtins_ok ob.
+Proof. exact builtins_ok_of. Qed.
+Print Assumptions C02_builtins_ok_of.
+
+(* the condition on bytecode is decidable *)
+Theorem C02_bc_okb_sound : forall bc, bc_okb bc = true -> bc_ok bc.
+Proof. exact bc_okb_sound. Qed.
+Print Assumptions C02_bc_okb_sound.
+
+(* non-vacuity: a machine with a code object installed ((cons #t '()) by hand: MOV-immediate,
+   PUSH %acc, PUSH-immediate, CONS, HALT) satisfies the invariant; its first instruction is a
+   MOV-immediate (not covered by C02_flat_preserved_step), it runs, and the invariant holds
+   afterwards *)
+Example C02_example_step_all :
+  finv fx_vm /\ bc_ok fx_code /\
+  exists s0 r s', read_opcode fx_vm = ROk OMovImmediate s0 /\ run_one fx_ob fx_vm = ROk r s' /\
+                  acc s' = VBool true /\ finv s'.
+Proof.
+  split; [exact fx_finv|]. split; [apply bc_okb_sound; reflexivity|].
+  assert (E1 : match read_opcode fx_vm with ROk o _ => Some o | _ => None end = Some OMovImmediate)
+    by (vm_compute; reflexivity).
+  assert (E2 : match run_one fx_ob fx_vm with ROk b s => Some (acc s) | _ => None end = Some (VBool true))
+    by (vm_compute; reflexivity).
+  destruct (read_opcode fx_vm) as [o s0| | |] eqn:R1; try discriminate E1. injection E1 as ->.
+  destruct (run_one fx_ob fx_vm) as [r s'| | |] eqn:R2; try discriminate E2. injection E2 as E2.
+  exists s0, r, s'. split; [reflexivity|]. split; [reflexivity|]. split; [exact E2|].
+  exact (finv_step_nocall fx_ob fx_vm OMovImmediate s0 r s' fx_finv R1 eq_refl R2).
+Qed.
